@@ -1,6 +1,6 @@
 use std::fmt::Write;
 
-use cssparser::{ToCss, Token, TokenSerializationType};
+use cssparser::{serialize_identifier, serialize_name, ToCss, Token, TokenSerializationType};
 use sourcemap::{SourceMap, SourceMapBuilder};
 
 use crate::step::StepToken;
@@ -69,7 +69,9 @@ impl StyleSheetOutput {
         }
         self.prev_ser_type = next_ser_type;
         let output_start_pos = self.s.len();
-        token.to_css(&mut self.s).unwrap();
+        if !write_integer_token(&token, &mut self.s) {
+            token.to_css(&mut self.s).unwrap();
+        }
         let name = src.map(|x| {
             let s = x.to_css_string();
             self.source_map.add_name(&s)
@@ -94,4 +96,53 @@ impl StyleSheetOutput {
             self.append_token(token, src);
         }
     }
+}
+
+/// Write a numeric token that has an integer value from that integer.
+///
+/// The generic serializer prints the `f32` value with 6 significant digits,
+/// which changes integers of more than 6 digits (`z-index: 2147483647`).
+/// Returns `false` if the token is not such a token (nothing is written then).
+fn write_integer_token(token: &Token, dest: &mut String) -> bool {
+    let (has_sign, int_value, unit) = match token {
+        Token::Number {
+            has_sign,
+            int_value: Some(v),
+            ..
+        } => (*has_sign, *v, None),
+        Token::Percentage {
+            has_sign,
+            int_value: Some(v),
+            ..
+        } => (*has_sign, *v, Some("%")),
+        Token::Dimension {
+            has_sign,
+            int_value: Some(v),
+            unit,
+            ..
+        } => (*has_sign, *v, Some(&**unit)),
+        _ => return false,
+    };
+    if int_value == 0 {
+        // keep the generic spelling of (signed) zeros
+        return false;
+    }
+    if has_sign && int_value > 0 {
+        dest.push('+');
+    }
+    write!(dest, "{}", int_value).unwrap();
+    match unit {
+        None => {}
+        Some("%") => dest.push('%'),
+        Some(unit) => {
+            if unit == "e" || unit == "E" || unit.starts_with("e-") || unit.starts_with("E-") {
+                // would be read as a number in scientific notation
+                dest.push_str("\\65 ");
+                serialize_name(&unit[1..], dest).unwrap();
+            } else {
+                serialize_identifier(unit, dest).unwrap();
+            }
+        }
+    }
+    true
 }
